@@ -64,7 +64,7 @@ Section Hash.
     strip ver j' = strip ver j -> has_underscore_key j' = has_underscore_key j ->
     parse ver j' = parse ver j.
   Proof.
-    intros ver j j' Hs Hu. unfold parse. rewrite Hs. unfold parse_untrusted.
+    intros ver j j' Hs Hu. unfold parse. rewrite Hs. unfold parse_untrusted, parse_untrusted_full.
     unfold strip in Hs. destruct (parser_of_version ver) as [[p fn]|]; [|reflexivity].
     rewrite Hu, Hs. reflexivity.
   Qed.
@@ -100,6 +100,30 @@ Section Hash.
   Qed.
 End Hash.
 
+(* the comparison the model makes (and the correspondence exercises): the value of
+   hashes.sha256, decoded by Base64Bytes.Decode, must be the hash byte for byte -- a longer value
+   that merely starts with the hash does not match *)
+Theorem hash_match_is_exact : forall real s,
+  hash_matches real s = true ->
+  real = [] \/
+  exists h, jpath [bs "hashes"; bs "sha256"] s = Some (JStr h) /\
+            Ident.Base64.base64bytes_decode h = Some real.
+Proof.
+  intros real s. unfold hash_matches.
+  destruct (jpath [bs "hashes"; bs "sha256"] s) as [[| | |h| |]|];
+    try (intro H; left; destruct real; [reflexivity|discriminate]).
+  destruct (Ident.Base64.base64bytes_decode h) as [d|] eqn:E; [|discriminate].
+  intro H. apply bytes_eqb_eq in H. subst. right. exists h. auto.
+Qed.
+
+Example over_long_hash_does_not_match :
+  let ev (h : string) := JObj [(bs "hashes", JObj [(bs "sha256", JStr (bs h))])] in
+  hash_matches [1; 2; 3] (ev "AQID"%string) = true /\
+  hash_matches [1; 2; 3] (ev "AQIDBA"%string) = false /\      (* the same three bytes and one more *)
+  hash_matches [1; 2; 3] (ev "AQI"%string) = false /\         (* one character short *)
+  hash_matches [1; 2; 3] (ev "AQID="%string) = false.         (* padding is not accepted *)
+Proof. vm_compute. repeat split; reflexivity. Qed.
+
 (* ---------- non-vacuity: a concrete v10 event, an altered display name, an altered membership ---------- *)
 Definition ev (display membership : string) : json :=
   JObj [ (bs "auth_events", JArr [JStr (bs "$a")]); (bs "prev_events", JArr [JStr (bs "$p")]);
@@ -133,3 +157,4 @@ Print Assumptions hash_match_yields_intact.
 Print Assumptions tamper_stripped_only.
 Print Assumptions stripped_keys_are_discarded.
 Print Assumptions tamper_redactable_only.
+Print Assumptions hash_match_is_exact.
